@@ -383,6 +383,7 @@ func run(c *eng.Ctx) {
 		RunRejectedRequests(c, "C16", alloc)
 		RunFallbackHandlers(c, "C16", alloc)
 		RunTwoProviders(c, "C16", alloc)
+		RunHandleOnClosedScope(c, "C16", alloc)
 	}()
 	for idx := 0; idx < l.total; idx++ {
 		if !c.Mine(idx) {
